@@ -153,6 +153,14 @@ def run(ctx):
             ctx.ob("R14.3", "setup_communicate.take-%s-after-success" % a[2], dominated_by_edges(sc, bb, oke), sc.loc(bb), "the stage's %s is taken out only after the pipeline was started successfully" % a[2])
 
     # ---- R14.5 no wait for started children while this frame still holds the read end of a pipe they write to ----------------
+    no_read_end_held_across_wait(ctx, prog, "R14.5", scope=lambda p: p.startswith("builder::pipeline"))
+
+
+def no_read_end_held_across_wait(ctx, prog, rule, scope=lambda p: True):
+    """no function waits for started children (drops their Popens, or calls a function that does) while its frame still holds the
+    read end of a pipe those children write to: a child blocked writing more than a pipe-full to such a pipe never exits, and the
+    wait never returns.  Held read ends: component 0 of a pipe made in the function, a stdout/stderr taken out of a started Popen,
+    and any Communicator (it owns the read ends of the children it talks to)."""
     # (the wait for the already started stages happens wherever their Popens are dropped; a stage blocked writing more than a
     # pipe-full to a pipe whose only reader is a descriptor parked in a local of the waiting frame never exits)
     NOT_RUNNING = {"popen::Popen::create": "drops the handle it is constructing itself: Preparing, or Finished after the failed child was reaped (C07 R07.4)",
@@ -168,13 +176,16 @@ def run(ctx):
             if any(M.callee_names(t["f"]) & waitfns for _, t in f.calls()):
                 waitfns.add(p)
                 changed = True
-    ctx.floor("R14.5", "functions that may wait for started children by dropping them", len(base), 1)
+    ctx.floor(rule, "functions that may wait for started children by dropping them", len(base), 1)
     PIPES = ("popen::os::make_pipe", "popen::make_pipe", "posix::pipe")
     nheld = 0
     for p, f in sorted(prog.fns.items()):
+        if not scope(p):
+            continue
         mk = [bb for bb, t in f.calls() if M.callee_str(t["f"]) in PIPES]
         tk = [bb for bb, t in f.calls() if M.callee_str(t["f"]) == "std::option::Option::<T>::take"]
-        if not mk and not tk:
+        hasc = any("communicate::Communicator" in l_["ty"] and not l_["ty"].startswith("&") and l_.get("name") for l_ in f.locals[f.arg_count + 1:])
+        if not mk and not tk and not hasc:
             continue
         Tf = M.Terms(f)
         read_ends = []
@@ -186,7 +197,10 @@ def run(ctx):
             return False
         for l in range(len(f.locals)):
             ty_ = f.locals[l]["ty"]
-            if l <= f.arg_count or not ("std::fs::File" in ty_ or "popen::Redirection" in ty_):
+            if l <= f.arg_count or not ("std::fs::File" in ty_ or "popen::Redirection" in ty_ or "communicate::Communicator" in ty_):
+                continue
+            if "communicate::Communicator" in ty_ and not ty_.startswith("&") and f.locals[l].get("name"):
+                read_ends.append(l)
                 continue
             for a in M.alts(M.noref(Tf.local(l))):
                 if "std::fs::File" == ty_ and a[0] == "field" and a[2] == "0":
@@ -223,9 +237,21 @@ def run(ctx):
         named = [l for l in read_ends if f.locals[l].get("name")]
         read_ends = named or read_ends
         full = M.Explore(f)
+        def defined_before(l, w):
+            """some definition of local l can reach the wait point w (l holds a value when w runs)"""
+            for (db, dsi, dr) in f.defs().get(l, []):
+                if db == w:
+                    if dsi != "term" and not isinstance(dsi, str):
+                        return True          # a statement of w's own block precedes its terminator
+                    continue
+                if w in f.reachable(db):
+                    return True
+            return False
         for l in read_ends:
             nheld += 1
             for w in wps:
+                if not defined_before(l, w):
+                    continue
                 # blocks that can run after the wait point, following the drop flags (a flag-guarded drop of a value already moved is dead)
                 after = set()
                 for st_ in full.state_at.get(w, []):
@@ -235,9 +261,9 @@ def run(ctx):
                 live = sorted(b for b in after if not f.blocks[b].get("cleanup") and mentions(b, l))
                 t_ = f.blocks[w]["term"]
                 what = M.callee_str(t_["f"]) if t_["k"] == "call" else "drop(%s)" % f.local_name(t_["p"]["l"])
-                ctx.ob("R14.5", "%s.%s-not-held-across:%s" % (p.split("::")[-1], f.local_name(l), what.split("::")[-1]), not live, f.loc(w),
+                ctx.ob(rule, "%s.%s-not-held-across:%s" % ("::".join(p.split("::")[-2:]), f.local_name(l), what.split("::")[-1]), not live, f.loc(w),
                        "%s can wait for already started children (it drops their Popens, or calls a function that does) while `%s` — the parent's read end of a pipe "
                        "those children write to — is still held by this frame (used later at %s): a child blocked writing to that pipe never exits and the wait, "
                        "hence the failed start, never returns" % (what, f.local_name(l), [f.loc(b) for b in live][:3]))
-    ctx.floor("R14.5", "parent-held pipe read ends examined", nheld, 1)
+    ctx.floor(rule, "parent-held pipe read ends examined", nheld, 1)
 
